@@ -42,7 +42,8 @@ class O2JToSM(ConvertBase):
             sms.title = o2js.title
             sms.artist = o2js.artist
             sms.credit = o2js.creator
-            sms.offset = 0.0
+            # Beat 0 of the file is the first bpm
+            sms.offset = sm.bpms.first_offset() or 0.0
 
             smss.append(sms)
 
@@ -76,6 +77,7 @@ class O2JToSM(ConvertBase):
         sms.title = o2js.title
         sms.artist = o2js.artist
         sms.credit = o2js.creator
-        sms.offset = 0.0
+        # Beat 0 of the file is the first bpm
+        sms.offset = (sms.maps[0].bpms.first_offset() if sms.maps else None) or 0.0
 
         return sms
